@@ -26,7 +26,8 @@ def jShape (j : Json) : Except String (Shape String) := do
          rows := ← jList jRow (← field j "rows")
          cons := ← jList jLinCon (← field j "cons")
          prods := ← jList (jPair jStr (jList jStr)) (← field j "prods")
-         lin := ← jTerms (← field j "lin") }
+         lin := ← jTerms (← field j "lin")
+         ints := ← jList (jPair jStr jNat) (fieldD j "ints" (.arr #[])) }
 
 def jPt (j : Json) : Except String (Pt String) := do
   pure ⟨← jList jStr (← field j "act"), ← jRat (← field j "obj")⟩
